@@ -10,7 +10,7 @@ from typing import Union, List, Optional, Dict
 
 # Local imports
 from ...connect import Connectable
-from ...instance import _get_connref
+from ...instance import _get_connref, InstanceArray
 from ...instantiable import (
     io,
     Instantiable,
@@ -276,6 +276,11 @@ class ResolvePortRefs(ElabPass):
 
         # Copy any relevant attributes of the Port
         sig = self.copy_port(port)
+
+        # Each element of an Instance Array gets its own, private section of the new Signal.
+        # A Signal of the Port's own width would instead be broadcast, shorting the "unconnected" Ports together.
+        if isinstance(portref.inst, InstanceArray) and isinstance(sig, Signal):
+            sig.width = sig.width * portref.inst.n
 
         # Set the signal name, either from the NoConn or the instance/port names.
         # In both cases avoid every name already in the Module, which `module.add` would silently replace.
